@@ -1208,6 +1208,12 @@ udp_timer_cb(void *arg)
 	ep->next_wake = NNI_TIME_NEVER;
 	while (nni_id_visit(&ep->pipes, NULL, (void **) &p, &cursor)) {
 
+		if (p->closed) {
+			// Already being closed, it only waits for the reaper.
+			// (Looking at it again would time out the dialer's
+			// NEXT connection attempt in its place.)
+			continue;
+		}
 		if (now > p->expire) {
 			char     buf[128];
 			nni_aio *aio;
@@ -1217,7 +1223,7 @@ udp_timer_cb(void *arg)
 
 			// Possibly alert the dialer, so it can restart a
 			// new attempt.
-			if ((ep->dialer) && (p->peer_id == 0) &&
+			if ((ep->dialer) && (p->state != PIPE_CONN_DONE) &&
 			    (aio = nni_list_first(&ep->connaios))) {
 				nni_aio_list_remove(aio);
 				nni_aio_finish_error(aio, NNG_ETIMEDOUT);
@@ -1562,8 +1568,10 @@ udp_ep_connect(void *arg, nni_aio *aio)
 		nni_aio_finish_error(aio, NNG_ECLOSED);
 		return;
 	}
-	if (!nni_list_empty(&ep->connaios)) {
-		// only one connection attempt at a time
+	if (!nni_list_empty(&ep->connaios) || nni_aio_busy(&ep->resaio)) {
+		// only one connection attempt at a time (the resolver aio
+		// of a cancelled attempt may still be winding down; the
+		// dialer simply tries again later)
 		nni_mtx_unlock(&ep->mtx);
 		nni_aio_finish_error(aio, NNG_EBUSY);
 		return;
